@@ -355,7 +355,10 @@ Definition def_body (d : typedef) (args : list rty) : outcome derived :=
           | [] => Ok (prim "never", None)
           | _ =>
               bind (omap_list (variant_gen args a tg raf) (live_variants vs))
-              (fun l => Ok (TUnion l, Some (TParen (TUnion l))))
+              (fun l => match l with
+                        | [] => Ok (prim "never", None)       (* every variant is skipped *)
+                        | _ => Ok (TUnion l, Some (TParen (TUnion l)))
+                        end)
           end
       end
   end.
